@@ -109,6 +109,11 @@ class Explorer:
         """value of `discriminant(local)` when the local's variant tag is known"""
         pl = rv[1]
         if pl[1]:
+            # a verdict moved into a tuple and matched there: `let (Ok(()), Some(k)) = (result, key) else {..}`
+            if all(isinstance(pr, list) and pr[0] == "f" for pr in pl[1]):
+                tag = self.fixed_places.get((pl[0], tuple(pr[1] for pr in pl[1])))
+                if isinstance(tag, str) and tag in self.VARIANT_IX:
+                    return ("int", self.VARIANT_IX[tag])
             return None
         tag = env.get(pl[0])
         if not isinstance(tag, str):
